@@ -10,28 +10,28 @@ PY = "/venv/bin/python"
 
 CLAIMS = {
     "C02": dict(
-        technique="sibling agreement of call-site bindings by def-use origin; step-offset forms of propagator indices; role-typed argument binding",
-        text="Decides that TEMPO and PT-TEMPO are wired to the same inputs at the same step indices (S1 influence arguments by origin, S2 propagator/step alignment, S3 role-typed plumbing, S4 dkmax/unique provenance, S5 both back ends fill every basis element of the dk=0 tensors from the reduced influence; S1 also: dk reaches influence_matrix unchanged). Numerical agreement of the two contractions is not decided.",
+        technique="sibling agreement of call-site bindings by def-use origin; step-offset forms of propagator indices; role-typed argument binding; memo-key rule over the system classes including memos kept on self by the propagator closures",
+        text="Decides that TEMPO and PT-TEMPO are wired to the same inputs at the same step indices (S1 influence arguments by origin, S2 propagator/step alignment, S3 role-typed plumbing, S4 dkmax/unique provenance, S5 both back ends fill every basis element of the dk=0 tensors from the reduced influence; S1 also: dk reaches influence_matrix unchanged). Numerical agreement of the two contractions is not decided. S7: no memo in the system classes leaves out of its key what the stored propagators were computed from (also the enclosing call's dt / start_time for a memo shared between closures).",
         note="Trusted: Python ast; def-use engine; role vocabulary (oqv/roles.py). Partial claim: wiring only.",
         ref="2/C02"),
     "C01": dict(
-        technique="path-conditioned reaching definitions (sign of dk, None-ness of dkmax / add_correlation_time, order of step and dkmax decided per case) with Laurent-polynomial forms of the cell bounds, influence indices and split indices; keyword binding of every truncating call",
-        text="Claims C01 in part: the clause 'the memory settings have exactly their documented meaning' and the tolerance clause, as far as they are visible in the shape of the code - which grid cell of the autocorrelation function is integrated per separation and memory setting (N1), which separation enters the TEMPO / PT-TEMPO network at which step (N2), the tcut <-> dkmax conversion incl. nearest-integer rounding of tcut/dt (N3), every truncation uses the requested relative tolerance only (N4). Each is a necessary condition. Equality of the states with the analytic independent-boson solution or the explicit finite-mode evolution is not decided.",
+        technique="path-conditioned reaching definitions (sign of dk, None-ness of dkmax / add_correlation_time, order of step and dkmax decided per case) with Laurent-polynomial forms of the cell bounds, influence indices and split indices; keyword binding of every truncating call; corner rule of the closed-form cell integrals (affine forms of the eta arguments, helpers written out)",
+        text="Claims C01 in part: the clause 'the memory settings have exactly their documented meaning' and the tolerance clause, as far as they are visible in the shape of the code - which grid cell of the autocorrelation function is integrated per separation and memory setting (N1), which separation enters the TEMPO / PT-TEMPO network at which step (N2), the tcut <-> dkmax conversion incl. nearest-integer rounding of tcut/dt (N3), every truncation uses the requested relative tolerance only (N4). Each is a necessary condition. Equality of the states with the analytic independent-boson solution or the explicit finite-mode evolution is not decided. N5: the closed-form coefficients evaluate the double antiderivative at the corners of the cells, not at rounded or clipped times.",
         note="Trusted: Python ast; CFG/def-use engine; NodeArray.split/join argument order (index, far side first). Partial claim: structural necessary conditions only.",
         ref="7.2 (C01)"),
     "C03": dict(
-        technique="sibling cross-check of the leg-role table of all PT-MPO consumers (edge-connection sites classified by the slots an edge is connected to / stored in); memo key / invalidation analysis; copy-vs-alias classification of setter stores, convention check of superoperator/cap application, guard presence, index-position discipline of the environment list",
-        text="Claims C03 in part: structural necessary conditions - all five consumers of a PT-MPO tensor agree on (past bond, future bond, system in, system out) and on the rank-3 delta expansion (M1), one convention for applying system superoperators and caps (M2), input guards (M3), list position of a process tensor only selects its own bond leg / cap / MPO (M4), no getter serves a memoised tensor outdated by a setter (M5), setters store independent copies (M6), caps close rank-3 / rank-4 tensors with trace_square / (trace_in, trace_out) in both compute_caps (M7). Exactness against an independent joint evolution is not decided; an error shared by producer and all consumers is invisible to this cross-check.",
+        technique="sibling cross-check of the leg-role table of all PT-MPO consumers (edge-connection sites classified by the slots an edge is connected to / stored in); memo key / invalidation analysis; copy-vs-alias classification of setter stores, convention check of superoperator/cap application, guard presence, index-position discipline of the environment list; ownership analysis of in-place updates (reaching definitions plus return summaries of callees and closure factories)",
+        text="Claims C03 in part: structural necessary conditions - all five consumers of a PT-MPO tensor agree on (past bond, future bond, system in, system out) and on the rank-3 delta expansion (M1), one convention for applying system superoperators and caps (M2), input guards (M3), list position of a process tensor only selects its own bond leg / cap / MPO (M4), no getter serves a memoised tensor outdated by a setter (M5), setters store independent copies (M6), caps close rank-3 / rank-4 tensors with trace_square / (trace_in, trace_out) in both compute_caps (M7). Exactness against an independent joint evolution is not decided; an error shared by producer and all consumers is invisible to this cross-check. M9: the contraction code never updates in place an array it does not own (propagators, controls, tensors handed out by their owners).",
         note="Trusted: tensornetwork edge-connection semantics; numpy copy/alias table (np.array copies, np.asarray may not). Partial claim.",
         ref="7.2 (C03)"),
     "C04": dict(
-        technique="algebraic shape checks: coefficient/operand form of every Lindblad dissipator, Kronecker-factor convention table of the superoperator builders, factor structure of the influence exponent, return-expression form of normalised read-outs",
-        text="Claims C04 in part: the clauses that hold by construction - trace-annihilating form of every dissipator construction site (D1), one (A (x) B^T) superoperator convention so that commutators annihilate the trace (D2), normalised read-outs (D3), and the factor structure of the influence exponent that gives trace preservation of the last-leg sum and I(s+,s-)* = I(s-,s+) (D4), one transposition parity of the Hermitian half-step propagator along the Gibbs path (D5), caps closed with the right trace vectors per tensor rank (D6). Each is a necessary condition of unit trace / Hermiticity. Positivity and the numerical size of deviations after SVD truncation are not decided.",
+        technique="algebraic shape checks: coefficient/operand form of every Lindblad dissipator, Kronecker-factor convention table of the superoperator builders, factor structure of the influence exponent, return-expression form of normalised read-outs; value-preservation analysis of the augmented MPS constructor",
+        text="Claims C04 in part: the clauses that hold by construction - trace-annihilating form of every dissipator construction site (D1), one (A (x) B^T) superoperator convention so that commutators annihilate the trace (D2), normalised read-outs (D3), and the factor structure of the influence exponent that gives trace preservation of the last-leg sum and I(s+,s-)* = I(s-,s+) (D4), one transposition parity of the Hermitian half-step propagator along the Gibbs path (D5), caps closed with the right trace vectors per tensor rank (D6). Each is a necessary condition of unit trace / Hermiticity. Positivity and the numerical size of deviations after SVD truncation are not decided. D7: the augmented MPS keeps the gammas and lambdas it is given (value-preserving conversions only).",
         note="Trusted: Kronecker/vec convention stated in operators.py; eta.real/eta.imag real. Partial claim: structural necessary conditions only.",
         ref="2/C04 and 7.2"),
     "C05": dict(
-        technique="typestate on matrices (HERMITIAN established -> decomposition must be of the Hermitian family); adjoint-pair operand check by flow into keyword / attribute; index calculus (dot, @, tensordot, einsum, moveaxis, .T) of the transformed MPO tensor",
-        text="Decides that the diagonalising transform comes from a solver whose contract gives a unitary transform and real eigenvalues for every Hermitian input (E1), and that forward/backward basis changes are mutual adjoints at every consumer (E2), Bath stores the solver's outputs unchanged (E3), and both get_mpo_tensor return M_in[k,i] T[a,b,i,j] M_out[j,l] (E4). Numerical covariance of dynamics is not decided.",
+        technique="typestate on matrices (HERMITIAN established -> decomposition must be of the Hermitian family); adjoint-pair operand check by flow into keyword / attribute; index calculus (dot, @, tensordot, einsum, moveaxis, .T) of the transformed MPO tensor; definite-initialisation rule of the rotation pair over the back-end class family",
+        text="Decides that the diagonalising transform comes from a solver whose contract gives a unitary transform and real eigenvalues for every Hermitian input (E1), and that forward/backward basis changes are mutual adjoints at every consumer (E2), Bath stores the solver's outputs unchanged (E3), and both get_mpo_tensor return M_in[k,i] T[a,b,i,j] M_out[j,l] (E4). Numerical covariance of dynamics is not decided. E2 also requires that every back-end class instantiated in the package builds the rotation pair before it rotates.",
         note="Trusted: frozen numpy/scipy table (eigh family vs general eig). Partial claim.",
         ref="2/C05"),
     "C06": dict(
@@ -55,8 +55,8 @@ CLAIMS = {
         note="Trusted: forms engine; step-tag facts listed in evidence. Partial claim.",
         ref="2/C09"),
     "C10": dict(
-        technique="import resolvability by locating and parsing the imported package; effect/ordering rule on the parallel layer; dispatch sibling agreement",
-        text="Decides that every execution mode resolves its names (I1), that a parallel layer's result is independent of completion order (I2: snapshot before submit, pure worker, ordered consumption, write-back in caller after join) that all modes reach the same worker and write-back (I3), site weights (I5), Trotter layer coverage (I6), and the count of bond matrices / traced site tensors between two recorded sites as polynomials in the site indices (I7). Exactness against dense propagation is not decided.",
+        technique="import resolvability by locating and parsing the imported package; effect/ordering rule on the parallel layer; dispatch sibling agreement; value-preservation analysis of the augmented MPS constructor",
+        text="Decides that every execution mode resolves its names (I1), that a parallel layer's result is independent of completion order (I2: snapshot before submit, pure worker, ordered consumption, write-back in caller after join) that all modes reach the same worker and write-back (I3), site weights (I5), Trotter layer coverage (I6), and the count of bond matrices / traced site tensors between two recorded sites as polynomials in the site indices (I7). Exactness against dense propagation is not decided. I8: a chain state saved with get_augmented_mps() and handed back is stored as given.",
         note="Trusted: concurrent.futures semantics table (Executor.map preserves submission order; `with` joins). Partial claim.",
         ref="2/C10"),
     "C11": dict(
@@ -95,8 +95,8 @@ CLAIMS = {
         note="Trusted: h5py/numpy semantics table. What HDF5 has flushed at an arbitrary kill point is not decided.",
         ref="2/C17"),
     "C18": dict(
-        technique="operand-position check on accumulation sites identified by def-use; event-order check on the CFG with events classified by provenance",
-        text="Decides composition order of stacked controls (O1), pre/record/post/propagate order of all steppers on every path (O2), float-time rounding and the None convention (O3).",
+        technique="operand-position check on accumulation sites identified by def-use; event-order check on the CFG with events classified by provenance; products of superoperators with feasible-path filtering; ownership analysis of in-place updates",
+        text="Decides composition order of stacked controls (O1), pre/record/post/propagate order of all steppers on every path (O2), float-time rounding and the None convention (O3). O2 reads products of controls and propagators (factors in cycle order, fused-in roles checked on feasible paths). O6: controls and propagators are never combined by updating a shared array in place.",
         note="Trusted: `A @ B` applies B first; tensornetwork contraction is order-free.",
         ref="2/C18"),
     "C19": dict(
@@ -105,8 +105,8 @@ CLAIMS = {
         note="Trusted: threading.Timer / Executor context-manager semantics table.",
         ref="2/C19"),
     "C20": dict(
-        technique="effect analysis: transitive self-attribute reads of memoised methods; closure-capture analysis vs shallow copy; array provenance for .shape stores; mutated-parameter summaries",
-        text="Decides the structural ways state leaks here: stale memoisation (A1), closures outliving a copy (A2/A3), layout-dependent in-place reshape (A4), writes to caller data (A5), shared mutable defaults (A6), process-global state (A6b), memo keys and memo invalidation (A7, A7b), copies kept and handed out (A8).",
+        technique="effect analysis: transitive self-attribute reads of memoised methods; closure-capture analysis vs shallow copy; array provenance for .shape stores; mutated-parameter summaries; ownership analysis of in-place updates; lru_cache over internally mutated state; closure-shared memos",
+        text="Decides the structural ways state leaks here: stale memoisation (A1), closures outliving a copy (A2/A3), layout-dependent in-place reshape (A4), writes to caller data (A5), shared mutable defaults (A6), process-global state (A6b), memo keys and memo invalidation (A7, A7b), copies kept and handed out (A8). A9: no function updates in place an object it does not own (attributes of others, container elements, results of callables that hand out stored arrays). A1 also covers private state rewritten by other methods; A7 covers memos kept on self by closures.",
         note="Trusted: numpy copy/view/layout table; functools.lru_cache key semantics. Partial claim.",
         ref="2/C20"),
 }
